@@ -22,7 +22,9 @@ from vf.sched import controller as ctlmod
 OK_KINDS = ('ok', 'ok_none')
 FAIL_KINDS = ('raise', 'failed')
 MALFORMED_KINDS = ('none', 'notpair3', 'notpair0', 'int', 'badstatus',
-                   'badstatus_int', 'badupdate', 'badupdate_list', 'conflict')
+                   'badstatus_int', 'badupdate', 'badupdate_list', 'conflict',
+                   'badupdate_empty_list', 'badupdate_zero',
+                   'badupdate_empty_str')
 NONFINAL_KINDS = ('nonfinal_waiting', 'nonfinal_pending')
 
 
@@ -163,6 +165,12 @@ class Monitor:
             return 7, TaskStatus.DONE
         if kind == 'badupdate_list':
             return [1, 2], TaskStatus.DONE
+        if kind == 'badupdate_empty_list':     # falsy, still not a mapping
+            return [], TaskStatus.DONE
+        if kind == 'badupdate_zero':
+            return 0, TaskStatus.DONE
+        if kind == 'badupdate_empty_str':
+            return '', TaskStatus.DONE
         if kind == 'conflict':
             # a mapping that cannot be merged into the environment: the
             # entry of the task holds a non-mapping under that key
@@ -398,6 +406,7 @@ class Result:
         self.statuses = {}
         self.exec_run = {}
         self.leaked = []
+        self.alive_at_return = []
         self.deaths = []
         self.queue_left = None
         self.trace_hash = None
@@ -534,6 +543,9 @@ def run_controlled(case, strategy, mon=None, env=None, tasks_graphs=None,
             if ctl.lost:
                 res.outcome = 'lost'
                 res.lost = ctl.lost
+            # census at the moment the call comes back, then after the
+            # remaining threads ran to quiescence
+            res.alive_at_return = [] if ctl.aborted else ctl.unfinished()
             if not ctl.aborted:
                 ctl.drain()
             res.leaked = ctl.unfinished()
@@ -714,6 +726,10 @@ def run_stress(case, rng, mon=None, env=None, tasks_graphs=None,
             box['outcome'] = 'raised:' + type(err).__name__
             box['error'] = repr(err)[:300]
         finally:
+            box['alive_at_return'] = [
+                t.name for t in threading.enumerate()
+                if t not in threads_before
+                and t is not threading.current_thread() and t.is_alive()]
             done.set()
 
     drv = threading.Thread(target=driver, name='M', daemon=True)
@@ -763,6 +779,8 @@ def run_stress(case, rng, mon=None, env=None, tasks_graphs=None,
                 break
             time.sleep(0.02)
         res.leaked = [(t.name, 'alive') for t in left]
+        res.alive_at_return = [(n, 'alive') for n in
+                               box.get('alive_at_return', [])]
         backend = box.get('backend')
         if backend is not None:
             queue = backend.queue
